@@ -2264,7 +2264,12 @@ class Interp:
                 if isinstance(k, slice):
                     h.items(base)[k] = self.seq(value)      # xs[i:j] = ys: the items of ys in place of the range
                 else:
-                    h.items(base)[k] = value
+                    try:
+                        h.items(base)[k] = value
+                    except IndexError:
+                        raise Raised('IndexError', h.version, getattr(t, 'lineno', 0))
+                    except TypeError:
+                        raise Raised('TypeError', h.version, getattr(t, 'lineno', 0))
             elif isinstance(base, Ref) and '__setitem__' in h.hooks and h.objs[base.name]['__class__'] not in ('dict', 'list'):
                 h.hooks['__setitem__'](self, [base, self.ev(t.slice, env, cls), value], {'lineno': getattr(t, 'lineno', 0)})      # the scenario's own store
             elif isinstance(base, Ref) and h.objs[base.name]['__class__'] in h.module.classes \
